@@ -394,6 +394,17 @@ def name_sensitive_label(op, names, lres, rres):
     return None
 
 
+
+def report(sh: Shard, label, what, witness):
+    """Shard keeps at most 40 witnesses per shard: store one witness per *classified* mechanism and only count
+    the further ones, so that an unclassified refutation always finds room for its witness."""
+    k = label or "unclassified"
+    if label is not None and any((v["mechanism"] or "unclassified") == k for v in sh.violations):
+        sh.violation_counts[k] = sh.violation_counts.get(k, 0) + 1
+        return
+    sh.violation(label, what, witness)
+
+
 # ------------------------------------------------------------------------------- one case
 async def run_case(env: Env, sh: Shard, case: dict, is_twin: bool = False, want_records: bool = False):
     names = case["names"]
@@ -481,7 +492,7 @@ async def run_case(env: Env, sh: Shard, case: dict, is_twin: bool = False, want_
                 label = value_predicates(op, names, facts, lres, rres, ldiff, L)
             what = (f"{op['op']} on {interpolated(op, names)!r} ({facts}): local {str(lres)[:160]} vs remote {str(rres)[:160]}"
                     + (f"; trees differ at {ldiff[:2]}" if ldiff else "") + (f"; stray files in the shell's cwd: {stray}" if stray else ""))
-            sh.violation(label, what, {"case": case, "step": i, "op": op, "facts": facts, "local": lres, "remote": rres,
+            report(sh, label, what, {"case": case, "step": i, "op": op, "facts": facts, "local": lres, "remote": rres,
                                        "tree_diff": ldiff, "stray": stray, "control": control, "is_twin": is_twin})
             sh.count("divergences")
             T.clone(L, R)
